@@ -233,6 +233,15 @@ def d5(ctx, F):
                 ctx.touch(cb)
                 vs = [rv["variant"] for i, j, pl, rv, s in K.aggregates(cb, "selium_std::errors::SeliumError")]
                 ok = vs == ["RequestTimeout"]
+    if not ok:
+        # explicit `match timeout(..).await { .., Err(_elapsed) => Err(RequestTimeout) }`
+        for i, bl in enumerate(r.blocks):
+            v = flow.switch_on_variant(r, i)
+            if v and v[1] == "core::result::Result" and "tokio::time::error::Elapsed" in r.local_ty(v[0]["l"]) and "Err" in v[2]:
+                arm = flow.reach_avoiding(r, [v[2]["Err"]], [i]) - flow.reach_avoiding(r, [v[2].get("Ok", v[3])], [i])
+                vs = sorted({rv["variant"] for i2, j2, pl2, rv, s2 in K.aggregates(r, "selium_std::errors::SeliumError", arm)})
+                if vs == ["RequestTimeout"]:
+                    ok = True
     ctx.check(ok, "C04.D5.timeout-error", "request:elapsed-not-timeout-error", "an elapsed timeout is reported as SeliumError::RequestTimeout", (me or to)[0].span)
 
 
